@@ -9,13 +9,37 @@ TRUSTED = ["Coq 8.16.1 kernel + vm_compute", "tools/tr_escapers.py (tabulation o
            "tolower() behaves as in the C locale on bytes >= 0x80 (the library never calls setlocale)",
            "pipeline level (lexer, smart typography, writers) is tested with a UTF-8 validity oracle, not proved"]
 SPECIAL = [" ", "À", "à", "é", "\u0085", " ", "　", "€", "中", "퟿", "", "�",
-           "\U00010000", "\U0001f389", "\U0010ffff", "©", "—", "“", "ß", "İ"]
+           "\U00010000", "\U0001f389", "\U0010ffff", "©", "—", "“", "ß", "İ",
+           # characters whose LAST byte looks like Latin-1 white space or a control (A0, 85, 80, 8A, 9F): a bytewise trim must not cut into them
+           "†", "≠", "造", "\U0001f3e0", "\u2005", "\u2028", "Ā", "\u200a", "\u2060", "ğ", "\U0001f49f"]
 SYNTAX = list("*_`[]()!#>-+=|:~^$\\<&\"' \t\n") + ["\n\n", "  \n", "1. ", "    ", "](", "]: ", "[^", "{++", "++}", "<!--", "-->", "---", "...", "``", "''"]
+
+
+def gen_trailing_doc(rng):
+    """special characters at the END of headings, cells, items, lines, link texts and emphasis (where trailing white space is trimmed), with a TOC"""
+    sp = lambda: rng.choice(SPECIAL)
+    w = lambda: rng.choice(["Home", "text", "Zed", "a"])
+    parts = []
+    for _ in range(rng.randint(2, 6)):
+        k = rng.randrange(9)
+        if k == 0: parts.append("#" * rng.randint(1, 4) + " %s %s%s" % (w(), sp(), rng.choice(["", " #", " ##"])))
+        elif k == 1: parts.append("%s %s\n%s" % (w(), sp(), rng.choice(["====", "----"])))
+        elif k == 2: parts.append("| %s %s | %s%s |\n|---|---|\n| %s%s | x %s |" % (w(), sp(), w(), sp(), w(), sp(), sp()))
+        elif k == 3: parts.append("* %s %s\n* %s%s" % (w(), sp(), w(), sp()))
+        elif k == 4: parts.append("%s %s  \n%s%s" % (w(), sp(), w(), sp()))
+        elif k == 5: parts.append("[%s %s](http://e.com/) **%s%s** *%s %s*" % (w(), sp(), w(), sp(), w(), sp()))
+        elif k == 6: parts.append("> %s %s" % (w(), sp()))
+        elif k == 7: parts.append("Term %s\n: Def %s" % (sp(), sp()))
+        else: parts.append("%s[^n]\n\n[^n]: note %s" % (w(), sp()))
+    if rng.random() < 0.6: parts.insert(rng.randrange(len(parts) + 1), "{{TOC}}")
+    return "\n\n".join(parts) + "\n"
 
 
 def gen_utf8_doc(rng):
     k = rng.random()
-    if k < 0.35:
+    if k < 0.25:
+        return gen_trailing_doc(rng)
+    if k < 0.55:
         base = gen_md.structured(rng)
         # splice special code points at random positions
         chars = list(base)
